@@ -403,6 +403,48 @@ fn iso_state_is_ascii(bytes: &[u8]) -> bool {
 }
 
 /// the text the complete output must decode to: unmappables as NCRs, documented folds applied
+/// The documented deviations from the identity when encoder output is decoded again (the exact table is the
+/// theorem `Thm.C12.folds_exact`): EUC-JP / Shift_JIS decode U+00A5, U+203E as the ASCII bytes they are
+/// written as, U+2212 comes back as U+FF0D; ISO-2022-JP writes half-width katakana as full-width katakana and
+/// U+2212 as U+FF0D; GBK / gb18030 write 18 private-use code points with the bytes the 2022 decoder reads as
+/// the standard characters.  Everything else must come back as itself - NOT as whatever the codec under test
+/// happens to decode it to.
+fn fold_char(out_enc: &'static Encoding, ch: char) -> char {
+    const KATAKANA: [u16; 63] = [
+        0x3002, 0x300C, 0x300D, 0x3001, 0x30FB, 0x30F2, 0x30A1, 0x30A3, 0x30A5, 0x30A7, 0x30A9, 0x30E3, 0x30E5, 0x30E7, 0x30C3, 0x30FC,
+        0x30A2, 0x30A4, 0x30A6, 0x30A8, 0x30AA, 0x30AB, 0x30AD, 0x30AF, 0x30B1, 0x30B3, 0x30B5, 0x30B7, 0x30B9, 0x30BB, 0x30BD, 0x30BF,
+        0x30C1, 0x30C4, 0x30C6, 0x30C8, 0x30CA, 0x30CB, 0x30CC, 0x30CD, 0x30CE, 0x30CF, 0x30D2, 0x30D5, 0x30D8, 0x30DB, 0x30DE, 0x30DF,
+        0x30E0, 0x30E1, 0x30E2, 0x30E4, 0x30E6, 0x30E8, 0x30E9, 0x30EA, 0x30EB, 0x30EC, 0x30ED, 0x30EF, 0x30F3, 0x309B, 0x309C,
+    ];
+    const GB: [(u32, u32); 18] = [
+        (0xE78D, 0xFE10), (0xE78E, 0xFE12), (0xE78F, 0xFE11), (0xE790, 0xFE13), (0xE791, 0xFE14), (0xE792, 0xFE15), (0xE793, 0xFE16),
+        (0xE794, 0xFE17), (0xE795, 0xFE18), (0xE796, 0xFE19), (0xE81E, 0x9FB4), (0xE826, 0x9FB5), (0xE82B, 0x9FB6), (0xE82C, 0x9FB7),
+        (0xE832, 0x9FB8), (0xE843, 0x9FB9), (0xE854, 0x9FBA), (0xE864, 0x9FBB),
+    ];
+    let c = ch as u32;
+    let f = if out_enc == encoding_rs::EUC_JP || out_enc == encoding_rs::SHIFT_JIS {
+        match c {
+            0xA5 => 0x5C,
+            0x203E => 0x7E,
+            0x2212 => 0xFF0D,
+            _ => c,
+        }
+    } else if out_enc == ISO_2022_JP {
+        if c == 0x2212 {
+            0xFF0D
+        } else if (0xFF61..=0xFF9F).contains(&c) {
+            KATAKANA[(c - 0xFF61) as usize] as u32
+        } else {
+            c
+        }
+    } else if out_enc == encoding_rs::GBK || out_enc == encoding_rs::GB18030 {
+        GB.iter().find(|&&(a, _)| a == c).map(|&(_, b)| b).unwrap_or(c)
+    } else {
+        c
+    };
+    char::from_u32(f).unwrap_or(ch)
+}
+
 fn expected_roundtrip(enc: &'static Encoding, units16: &[u16]) -> String {
     let text = String::from_utf16_lossy(units16);
     let out_enc = enc.output_encoding();
@@ -410,14 +452,13 @@ fn expected_roundtrip(enc: &'static Encoding, units16: &[u16]) -> String {
     for ch in text.chars() {
         let mut tmp = [0u8; 4];
         let one = ch.encode_utf8(&mut tmp);
-        let (bytes, _, unm) = out_enc.encode(one);
+        let (_, _, unm) = out_enc.encode(one);
         if unm {
             // ISO-2022-JP reports its forbidden controls (U+000E, U+000F, U+001B) as U+FFFD
             let rep = if out_enc == ISO_2022_JP && (ch == '\u{0E}' || ch == '\u{0F}' || ch == '\u{1B}') { 0xFFFD } else { ch as u32 };
             s.push_str(&format!("&#{};", rep));
         } else {
-            let (back, _) = out_enc.decode_without_bom_handling(&bytes);
-            s.push_str(&back);
+            s.push(fold_char(out_enc, ch));
         }
     }
     s
